@@ -2,7 +2,6 @@
 package main
 
 import (
-	"runtime/pprof"
 	"encoding/json"
 	"flag"
 	"fmt"
@@ -11,6 +10,7 @@ import (
 	"os/exec"
 	"path/filepath"
 	"regexp"
+	"runtime/pprof"
 	"sort"
 	"strconv"
 	"strings"
@@ -539,6 +539,9 @@ func cmdCheck(args []string) int {
 		if r.Budget {
 			machinery = append(machinery, fmt.Sprintf("%s: path budget exhausted", ob.Name))
 		}
+		if r.Aborted {
+			machinery = append(machinery, fmt.Sprintf("%s: abandoned after too many inconclusive solver answers or at its wall-clock budget: not all paths were explored", ob.Name))
+		}
 		if len(r.Inconcl) > 0 {
 			machinery = append(machinery, fmt.Sprintf("%s: %d inconclusive final queries: %v", ob.Name, len(r.Inconcl), r.Inconcl[0]))
 		}
@@ -614,26 +617,26 @@ func cmdCheck(args []string) int {
 			"distinct_nontrivial": unsatN + branchUnsat,
 			"rule": "one evaluation = one explored symbolic path of a harness, one distinct final SMT query (path condition AND NOT assertion) or one distinct branch-feasibility query (path condition AND branch condition); " +
 				"distinct_nontrivial counts the distinct queries (keyed by the set of hash-consed conjuncts) that term simplification did not decide and that the solver answered unsat, i.e. assertions discharged plus program branches proved infeasible (e.g. the accepting branch of the verifier after tampering)",
-			"branch_queries":        branchQ,
-			"branch_queries_unsat":  branchUnsat,
-			"samples":              samples,
-			"obligation_details":   evObs,
-			"obligations":          totalN,
-			"discharged":           unsatN,
-			"states":               totalPaths,
-			"transitions":          totalDecisions + totalPaths,
+			"branch_queries":                branchQ,
+			"branch_queries_unsat":          branchUnsat,
+			"samples":                       samples,
+			"obligation_details":            evObs,
+			"obligations":                   totalN,
+			"discharged":                    unsatN,
+			"states":                        totalPaths,
+			"transitions":                   totalDecisions + totalPaths,
 			"traces_validated_against_impl": replayN,
-			"paths":                totalPaths,
-			"final_queries":        totalN,
-			"final_queries_unsat":  unsatN,
-			"functions_encoded":    sortedKeys(funcs),
-			"stubs_and_assumptions": sortedKeys(stubs),
-			"solver_queries":       smt.Global.Queries,
-			"solver_time_s":        smt.Global.TimeS,
-			"solver_error_lines":   smt.Global.Errors,
-			"load_s":               loadS,
-			"machinery_failures":   machinery,
-			"explanation":          "bounded symbolic execution of the real Go code (go/ssa of /repo's working tree, regenerated on this run) into SMT-LIB2; bounds per obligation are listed under obligations[].unwind_bound/params and in MANIFEST level_note",
+			"paths":                         totalPaths,
+			"final_queries":                 totalN,
+			"final_queries_unsat":           unsatN,
+			"functions_encoded":             sortedKeys(funcs),
+			"stubs_and_assumptions":         sortedKeys(stubs),
+			"solver_queries":                smt.Global.Queries,
+			"solver_time_s":                 smt.Global.TimeS,
+			"solver_error_lines":            smt.Global.Errors,
+			"load_s":                        loadS,
+			"machinery_failures":            machinery,
+			"explanation":                   "bounded symbolic execution of the real Go code (go/ssa of /repo's working tree, regenerated on this run) into SMT-LIB2; bounds per obligation are listed under obligations[].unwind_bound/params and in MANIFEST level_note",
 		},
 		"assumptions": append([]string{"the go/ssa -> SMT-LIB2 encoder and its models of math/big are faithful (every counterexample is replayed natively; unsat answers rest on the encoder)", "z3 4.8.12 / z3 5.1.0 / cvc5 1.0.3 answer correctly; any (error line makes an answer inconclusive"}, sortedKeys(stubs)...),
 	}
